@@ -37,6 +37,7 @@ def main(argv):
             cases.append({'file': file, 'cfg': {'file': 'Mixer.dzn', 'enc': ['My', 'Mixer'], 'fac': rng.choice(['create', 'import']),
                                                'ports': {'p': [['w', 'none'], ['w', 'all']], 'r': [['w', 'none' if rsem == 'all' else 'all'], ['w', rsem]],
                                                          'mc': ['api', 'Claim', ['Ok'], 'Release']}}})
+    cases += SR.prefix_name_cases()       # port names that are prefixes of each other around the multi-client port
     cases += SR.mixed_semantics_cases()   # semantics alternating in declaration order; an injected port that needs no semantics
     io, mo, plans = SR.tie_and_plans(cases)
     wd = legb.Workdir()
